@@ -109,6 +109,12 @@ def gen_file(rng):
     text = ''.join(parts)
     if rng.random() < 0.6 and not text.endswith('\n'):
         text += '\n'
+    if rng.random() < 0.15:
+        # a file saved with Windows line ends (kept only when the marker pattern still finds every marker: a pattern that ends
+        # in a literal before `$` does not match a line ending in \r, and the planted diagnostics are recorded per chunk)
+        crlf = text.replace('\r\n', '\n').replace('\n', '\r\n')
+        if len(expected_split(crlf, pat)) == len(expected_split(text, pat)):
+            text = crlf
     return {'text': text, 'pattern': pat, 'n_markers': n_markers, 'kinds': kinds, 'planted': planted}
 
 
